@@ -21,9 +21,15 @@
    Cache level: C16 for Get / GetWithExpiration / GetWithTTL follows because
    their model (CacheModel.get) issues one MLoad and falls back to MCompute
    only for an expired entry (C09 / C02 method bodies).
-   Which value the stalled-writer read returns is part of C04. *)
+     C16_value              "the value returned in that situation is the last
+        completely written one": a Load k that has just been invoked, run alone
+        from any reachable state, returns v exactly when (k, v) is VISIBLE in the
+        current table (meta byte and entry pointer both stored), and absent
+        otherwise -- a half-written insert is not seen, a half-done delete is
+        already gone; by C04_abs_step the visible map is the one the completed
+        linearization stores have built. *)
 From CacheV Require Import Base SpecMap XMachine TabExec Exec XExec.
-From CacheV.proofs Require Import X_basic X_inv X_c13 X_c16 X_inst.
+From CacheV.proofs Require Import X_basic X_inv X_c13 X_c16 X_inst X_own X_chain X_c04 X_lin X_read.
 From Coq Require Import NArith.
 Local Open Scope nat_scope.
 
@@ -49,6 +55,21 @@ Theorem C16_reader_step :
     /\ Forall (read_label t) ls.
 Proof. exact @reader_step_proof. Qed.
 Print Assumptions C16_reader_step.
+
+Theorem C16_value :
+  forall (K V : Type) (eqd : forall a b : K, {a = b} + {a <> b}) hash idx tag nslots seeds g sh probe nstripes minlen grow_only,
+    xhyps4 idx nstripes minlen nslots probe -> forall len0 todo sched t k, 0 < len0 ->
+    let xrun := @xrun K V eqd hash idx tag nslots seeds g sh probe nstripes minlen grow_only in
+    let s := fst (xrun (xinit nslots seeds nstripes len0 todo) sched) in
+    g_pc s t = PL_Table k LPlain ->
+    exists m o, m <= rd_bound hash idx tag nslots probe nstripes s (PL_Table k LPlain)
+      /\ g_pc (fst (xrun s (repeat t m))) t = PIdle
+      /\ In (XRes t (res_of o)) (snd (xrun s (repeat t m)))
+      /\ (forall v, o = Some v <-> vis hash idx (tab_at nslots nstripes s (g_cur s)) k v)
+      /\ g_tabs (fst (xrun s (repeat t m))) = g_tabs s /\ g_cur (fst (xrun s (repeat t m))) = g_cur s
+      /\ (forall t', t' <> t -> g_pc (fst (xrun s (repeat t m))) t' = g_pc s t').
+Proof. exact @solo_load_visible_proof. Qed.
+Print Assumptions C16_value.
 
 (* the read path is what start_pc says for Load, the load-if-exists calls and Size *)
 Theorem C16_read_entry_points :
